@@ -68,20 +68,23 @@ EXTRA_SCHEMES = [gen.PRESETS["unifying"], gen.scale(gen.PRESETS["unifying"], 2.0
 def check(case, ctx):
     # generation dominates the cost: the drawn scheme, then a fixed family of schemes (unifying and a multiple, two
     # schemes under which the score is not a metric, induced, a near-unifying one)
-    check_one(case, ctx)
+    # ONE PickAPerm instance and ONE Dataset object serve the whole batch (state kept between runs must not leak)
+    shared = {"alg": get_algorithm(Algorithm.PICKAPERM) if case.get("via_enum") else PickAPerm(),
+              "d": lib.mk_dataset(case["dataset"]["rankings"])}
+    check_one(case, ctx, shared)
     if case.get("batched", True):
         for sch in EXTRA_SCHEMES:
             c = dict(case)
             c["scheme"], c["batched"] = sch, False
             c["family"] = "unifying" if sch[0][5] == sch[0][1] and sch[1][0] == sch[0][1] else "other"
             c["at_most_one"] = not case["at_most_one"] if sch is EXTRA_SCHEMES[2] else case["at_most_one"]
-            check_one(c, ctx)
+            check_one(c, ctx, shared)
 
 
-def check_one(case, ctx):
+def check_one(case, ctx, shared=None):
     rankings, scheme, flag = case["dataset"]["rankings"], case["scheme"], case["at_most_one"]
-    d, s = lib.mk_dataset(rankings), lib.mk_scheme(scheme)
-    alg = get_algorithm(Algorithm.PICKAPERM) if case.get("via_enum") else PickAPerm()
+    d, s = (shared["d"] if shared else lib.mk_dataset(rankings)), lib.mk_scheme(scheme)
+    alg = shared["alg"] if shared else (get_algorithm(Algorithm.PICKAPERM) if case.get("via_enum") else PickAPerm())
     if not isinstance(alg, PickAPerm):
         raise Violation("get_algorithm(Algorithm.PICKAPERM) returned a %s" % type(alg).__name__)
     inst = oracle.Instance(rankings, scheme)
